@@ -209,9 +209,16 @@ SrcOf(n) == [i \in 1 .. n |-> I(i)]
 VARIABLES pipe, n, phase
 Pulls == 9          \* number of stepwise `next` calls of the stepwise consumer
 
+\* Depth 3 is explored on a fixed slice of the product (every pipeline whose three adaptors contain a size-changing one in
+\* the middle and whose source length is 3 or MaxLen): the full product at depth 3 does not finish in a check's time
+Depth3Ok(p, len) == /\ p[2].a \in {"skip", "take", "step", "chunks", "windows", "keep", "flatten", "peekable", "reversed"}
+                    /\ p[1].a # "cycle" /\ p[3].a # "cycle"
+                    /\ len \in {3, MaxLen}
+
 Init == /\ phase = "gen"
         /\ n \in 0 .. MaxLen
         /\ \E d \in 1 .. MaxDepth : pipe \in [1 .. d -> Adaptors]
+        /\ (Len(pipe) = 3 => Depth3Ok(pipe, n))
 
 InitSt(bidi) == [src |-> SrcOf(n), f |-> 0, b |-> 0, log |-> <<>>, ad |-> [k \in 1 .. Len(pipe) |-> InitAd(pipe[k])]]
 
@@ -233,11 +240,16 @@ Check ==
     LET steps == Stepwise(InitSt(TRUE), Pulls, <<>>)
         outs == SelectSeq(steps, LAMBDA x : x.out.some)
         produced == [i \in 1 .. Len(outs) |-> outs[i].out.v]
-        defn == DefPipe(pipe, SrcOf(n), 64)     \* `cycle` is cut after 64 elements: enough for every adaptor above it
-        want == SubSeq(defn, 1, Min(Len(defn), Pulls))
+        \* `cycle` is cut after 64 elements.  Above a `cycle` the definition is therefore a finite cut of an endless sequence:
+        \* its last output may be incomplete (a short final chunk), so it is left out of the comparison
+        defn == DefPipe(pipe, SrcOf(n), 64)
+        want == IF HasCycle /\ n > 0 THEN SubSeq(defn, 1, Min(IF Len(defn) > 0 THEN Len(defn) - 1 ELSE 0, Pulls))
+                ELSE SubSeq(defn, 1, Min(Len(defn), Pulls))
         lastlog == IF steps = <<>> THEN <<>> ELSE steps[Len(steps)].log
     IN  \* OutputsEqualDefinition
-        /\ Assert(Len(produced) = Len(want) /\ \A i \in 1 .. Len(want) : VEq(produced[i], want[i]),
+        \* (above a `cycle` the definition is a finite cut of an endless sequence: the outputs it provides are compared)
+        /\ Assert((IF HasCycle /\ n > 0 THEN Len(produced) >= Len(want) ELSE Len(produced) = Len(want))
+                  /\ \A i \in 1 .. Len(want) : VEq(produced[i], want[i]),
                   <<"OutputsEqualDefinition", pipe, n, produced, want>>)
         \* once exhausted, an iterator stays exhausted (except cycle over cached values)
         /\ Assert(HasCycle \/ \A i \in 1 .. Len(steps) : \A j \in i .. Len(steps) : ~steps[i].out.some => ~steps[j].out.some,
